@@ -321,6 +321,25 @@ def _law_sweep_body(ctx, atm, out):
     ok = atm.e_eq_water_mk(T) / p < 0.9
     lapse = atm.moist_lapse_rate(p, T)
     law("lapse-bounds", ok & ((lapse <= 0) | (lapse > gd * (1 + 1e-12))), [p, T], "0 < lapse <= g/cp")
+    # pressures of 1 .. 11 hPa on their own (scalars, a stratosphere-only profile): no call may depend on which other
+    # levels it is handed together with
+    p_low = np.array([100.0, 250.0, 600.0, 1000.0, 1100.0])
+    T_low = np.array([215.0, 200.0, 225.0, 230.0, 190.0])
+    whole = atm.moist_lapse_rate(np.concatenate([p_low, [5.0e4]]), np.concatenate([T_low, [260.0]]))[:5]
+    for label, call in [("a stratosphere-only profile (1 .. 11 hPa)", lambda: np.asarray(atm.moist_lapse_rate(p_low, T_low)))] + \
+            [(f"the scalars p = {pp} Pa, T = {tt} K", (lambda pp=pp, tt=tt: np.asarray([atm.moist_lapse_rate(pp, tt)])))
+             for pp, tt in zip(p_low.tolist(), T_low.tolist())]:
+        try:
+            v = call()
+        except Exception as e:  # noqa
+            out.append(("lapse-low-pressure", f"moist_lapse_rate raised {type(e).__name__}: {e} for {label}",
+                        {"law": "lapse-low-pressure", "input": label}))
+            continue
+        ref = whole if v.size == 5 else whole[[k for k, pp in enumerate(p_low.tolist()) if f"p = {pp} Pa" in label]]
+        if np.any(v <= 0) or np.any(v > gd * (1 + 1e-12)) or np.any(np.abs(v - ref) > 1e-13 * gd):
+            out.append(("lapse-low-pressure", f"moist_lapse_rate gives {v.tolist()} for {label}; as part of a profile that also holds "
+                        f"a tropospheric level the same levels give {ref.tolist()} (bound g/cp = {gd})",
+                        {"law": "lapse-low-pressure", "input": label}))
     wsat = atm.vmr2mixing_ratio(atm.e_eq_water_mk(T) / p)
     b = constants.heat_of_vaporization ** 2 / (constants.isobaric_mass_heat_capacity * constants.gas_constant_water_vapor * T ** 2)
     # the law is over the reals; `lapse` carries a few ulps of rounding relative to g/cp, which dominates the
